@@ -168,29 +168,31 @@ theorem loadMod_inv (S : Sem) (P : Sess → Prop) (F : Str → Str → Prop)
         split
         · exact h1
         · split
-          · rename_i s2 heq
-            exact (htree _ _ _ _ h1 heq).1
-          · rename_i s2 tree heq
-            obtain ⟨_, h2⟩ := htree _ _ _ _ h1 heq
-            obtain ⟨hF, h3⟩ := h2 tree rfl
-            have h4 := foldl_inv P _ (fun a b ha => ih a b ha) (S.importsOf tree) _ h3
-            generalize (S.importsOf tree).foldl (loadMod S f) _ = s3 at h4
-            split
-            · exact h4
-            · by_cases hall : (S.importsOf tree).all (fun d => (List.lookup d s3.db).isSome) = true
-              · simp only [hall, ↓reduceIte]
-                split
-                · rename_i s4 heq2
-                  exact (hpre _ _ _ _ _ h4 hF (Or.inl hall) heq2).1
-                · rename_i s4 table heq2
-                  exact (hpre _ _ _ _ _ h4 hF (Or.inl hall) heq2).2 table rfl
-              · simp only [hall, Bool.false_eq_true, ↓reduceIte]
-                have h5 := hcyc _ h4
-                split
-                · rename_i s4 heq2
-                  exact (hpre _ _ _ _ _ h5 hF (Or.inr rfl) heq2).1
-                · rename_i s4 table heq2
-                  exact (hpre _ _ _ _ _ h5 hF (Or.inr rfl) heq2).2 table rfl
+          · exact h1
+          · split
+            · rename_i s2 heq
+              exact (htree _ _ _ _ h1 heq).1
+            · rename_i s2 tree heq
+              obtain ⟨_, h2⟩ := htree _ _ _ _ h1 heq
+              obtain ⟨hF, h3⟩ := h2 tree rfl
+              have h4 := foldl_inv P _ (fun a b ha => ih a b ha) (S.importsOf tree) _ h3
+              generalize (S.importsOf tree).foldl (loadMod S f) _ = s3 at h4
+              split
+              · exact h4
+              · by_cases hall : (S.importsOf tree).all (fun d => (List.lookup d s3.db).isSome) = true
+                · simp only [hall, ↓reduceIte]
+                  split
+                  · rename_i s4 heq2
+                    exact (hpre _ _ _ _ _ h4 hF (Or.inl hall) heq2).1
+                  · rename_i s4 table heq2
+                    exact (hpre _ _ _ _ _ h4 hF (Or.inl hall) heq2).2 table rfl
+                · simp only [hall, Bool.false_eq_true, ↓reduceIte]
+                  have h5 := hcyc _ h4
+                  split
+                  · rename_i s4 heq2
+                    exact (hpre _ _ _ _ _ h5 hF (Or.inr rfl) heq2).1
+                  · rename_i s4 table heq2
+                    exact (hpre _ _ _ _ _ h5 hF (Or.inr rfl) heq2).2 table rfl
 
 end Tranp.CacheFS
 
